@@ -181,6 +181,7 @@ func genArrive(c *rig.Ctx, i int) Case {
 				sy.Acts = append(sy.Acts[:at2], append([]Act{{"hbOk", 0}}, sy.Acts[at2:]...)...)
 			}
 		}
+		scriptInfo(c, &sy)
 		cs.Rounds = append(cs.Rounds, sy)
 	}
 	return cs
@@ -322,8 +323,7 @@ func runArrive(c *rig.Ctx, cs Case, m mode) int {
 		for _, e := range sy.Leaders {
 			elector.VerifC13SetLeader(srv.le, int(e.S), urlOf(rig.UnHex(e.L)))
 		}
-		info, _ := srv.rl.ServerInfo()
-		b, _ := json.Marshal(info)
+		b, _ := publishedInfo(srv, sy)
 		// no acquire may be half-way (client resolved, request not yet stamped) while the gateway syncs
 		var release []func()
 		for _, p := range gcps {
